@@ -111,7 +111,32 @@ fn ser_state_toks<F: FElem, S: Acc + Serialize + DeserializeOwned + PartialEq>(k
     )
 }
 
+/// a state with an infinite register (finite observations whose squares overflow on the last step): it has no JSON
+/// form (JSON has no infinity), but TOML has; the TOML round trip must restore it unchanged
+fn ser_toml_nonfinite<F: FElem, S: Acc + Serialize + DeserializeOwned + PartialEq>(kind: &str, big: f64) -> String {
+    let toks: Vec<String> = match kind {
+        "paired" => vec!["E".into(), "a".into(), crate::prog_ops::fenc_pub::<F>(1.0), crate::prog_ops::fenc_pub::<F>(0.5), "a".into(), crate::prog_ops::fenc_pub::<F>(big), crate::prog_ops::fenc_pub::<F>(-big * 0.25)],
+        "unpaired" => vec!["E".into(), "a".into(), "A".into(), crate::prog_ops::fenc_pub::<F>(big * 0.3), "a".into(), "A".into(), crate::prog_ops::fenc_pub::<F>(big), "a".into(), "B".into(), crate::prog_ops::fenc_pub::<F>(1.0), "a".into(), "B".into(), crate::prog_ops::fenc_pub::<F>(2.0)],
+        _ => vec!["E".into(), "a".into(), crate::prog_ops::fenc_pub::<F>(big * 0.3), "a".into(), crate::prog_ops::fenc_pub::<F>(big)],
+    };
+    let s: S = final_state::<S>(&toks);
+    let conf = Confidence::new_two_sided(0.9);
+    let res = guarded(|| match toml::to_string(&s) {
+        Ok(t) => match toml::from_str::<S>(&t) {
+            Ok(r) => format!("toml:{} {}", b(r == s), b(r.query(conf) == s.query(conf))),
+            Err(_) => "toml:parse-error F".to_string(),
+        },
+        Err(_) => "toml:unsupported F".to_string(),
+    });
+    format!("C20 sertoml {} {} {} => {}", F::TAG, kind, toks.join(" "), res)
+}
+
 pub fn c20(out: &mut Vec<String>, rng: &mut Rng, tier: &str) {
+    // (the squares of the two observations are finite, their sum is not: the register becomes (inf, inf) without a NaN)
+    out.push(ser_toml_nonfinite::<f64, Arithmetic<f64>>("arith", 1.3e154));
+    out.push(ser_toml_nonfinite::<f64, Unpaired<f64>>("unpaired", 1.3e154));
+    out.push(ser_toml_nonfinite::<f32, Arithmetic<f32>>("arith", 1.8e19));
+    out.push(ser_toml_nonfinite::<f32, Unpaired<f32>>("unpaired", 1.8e19));
     let reps = if tier == "thorough" { 300 } else { 40 };
     let kmax = if tier == "thorough" { 60 } else { 24 };
     for k in 1..kmax {
